@@ -35,6 +35,10 @@ fn dup_logical(rng: &mut Rng, i: u64, codec: u8) -> Logical {
         p.push(Rc::new(longer));
         p
     };
+    if i % 240 == 37 {
+        // contents above 1 MiB (sometimes above 2^24 bytes) present as reader-backed AND in-memory tiles
+        return gen::gen_logical(rng, SizeClass::HugeTiles, codec);
+    }
     if i % 24 == 13 {
         // one very long run whose length sits on a power-of-two / integer-width boundary
         let n = [255u64, 256, 257, 65_535, 65_536, 65_537, 70_000, 131_073][((i / 24) % 8) as usize];
@@ -211,6 +215,11 @@ pub fn run(ctx: &mut Ctx) {
                     model.reopened();
                     arch = if i % 8 < 4 { Arch::open_sync(bytes) } else { Arch::open_async(bytes) }.map_err(|e| e.to_string())?;
                     arch.apply_settings(&l);
+                    if i % 16 >= 8 {
+                        for id in ids[..split].iter().step_by(3).take(100) {
+                            let _ = arch.get(*id).map_err(|e| e.to_string())?;
+                        }
+                    }
                     add_all(&mut arch, &mut model, &ids[split..], every)?;
                 }
                 2 => {
@@ -220,6 +229,15 @@ pub fn run(ctx: &mut Ctx) {
                     model.reopened();
                     arch = Arch::open_sync(bytes).map_err(|e| e.to_string())?;
                     arch.apply_settings(&l);
+                    if i % 8 >= 4 {
+                        // look some (not all) of the reader-backed tiles up first: the middle of runs, shared contents
+                        for id in ids.iter().skip(1).step_by(2).take(200) {
+                            let got = arch.get(*id).map_err(|e| e.to_string())?;
+                            if got.as_deref() != Some(l.tiles[id].as_slice()) {
+                                return Err(format!("lookup of reader-backed tile {id} returned wrong bytes"));
+                            }
+                        }
+                    }
                     let third: Vec<u64> = ids.iter().copied().step_by(3).collect();
                     add_all(&mut arch, &mut model, &third, every)?;
                 }
